@@ -33,6 +33,7 @@ PLAY = """role r
   spotlight while true; do echo "v $RANDOM"; echo "e boo"; sleep 0.02; done
   signal v scalar at (?P<ts_now>)v (?P<scalar>\\d+)
   signal e event at (?P<ts_now>)e (?P<event>\\w+)
+  signal z scalar at (?P<ts_now>)never-printed (?P<scalar>\\d+)
 end
 cast
   a plays r
@@ -49,6 +50,7 @@ script
 %(repeat)send
 audience
   bob watches a v
+  bob watches a z
   bob watches every r e
   carl audits throughout
   carl expects always: [a v] %(pred)s
